@@ -7,8 +7,12 @@
    [nav_of], [nav_path], [nav_raw] = LocationMaker.walk + NDNav.name/index/raw.
    [wf e t]: no OCCURS DEPENDING ON (that is C06's theorem); every REDEFINES names an earlier sibling that is
    not itself a redefiner, is no longer than it, and neither is an elementary OCCURS item; no REDEFINES
-   inside a repeated group.  The last two are the known findings K-occurs-elem-in-union and
-   K-redef-in-occurs; everything else in [wf] is what a COBOL compiler demands anyway.
+   inside a repeated group.  What that excludes, shape by shape (exactly: Props/C01d.v, C01d_unions_ok_exact): an elementary
+   OCCURS item in a union and a REDEFINES inside a repeated group are the known findings K-occurs-elem-in-union and
+   K-redef-in-occurs; a REDEFINES whose target is itself a redefiner is legal COBOL since the 2002 standard and is laid out
+   wrongly by the code - known finding K-redefines-of-redefiner (C01d_chain_full_refuted); a redefiner longer than its target is
+   not a record description by ISO COBOL below level 01, the code gives such a union the length of its longest alternative and
+   no theorem here covers it; that a REDEFINES names an EARLIER sibling is what every COBOL compiler demands.
    The record [r] is a list over ANY element type (EBCDIC bytes or native text characters alike) and
    of any length; [dcount] is irrelevant without DEPENDING ON. *)
 From Coq Require Import List Arith NArith Bool.
